@@ -11,8 +11,8 @@ EXHAUSTIVE = {'quick': True, 'thorough': True}
 RULE = ('delivery histories as the download loop can produce them: an object of N position-revealing bytes is split into disjoint '
         'consecutive parts; each part has 1..A attempts, every attempt delivers consecutive chunks starting at the part\'s first byte, '
         'cut at arbitrary places and stopping anywhere (the last attempt delivers the whole part), attempts of different parts '
-        'interleave arbitrarily. (exh) ALL such histories up to the bound (quick: N<=5, <=2 parts, <=2 attempts; thorough: N<=6, <=3 '
-        'parts, <=3 attempts with at most two parts retried) are fed to the real DeferQueue.request_writes; after every call: each released write '
+        'interleave arbitrarily. (exh) ALL such histories up to the bound (quick: N<=5, <=2 parts, <=2 attempts; thorough: N<=5 with <=3 parts x <=2 attempts and <=2 parts x <=3 attempts, N<=5 '
+        'with 3 parts x 3 attempts and at most two parts retried, N=6 with 3 parts x 3 attempts and at most one part retried) are fed to the real DeferQueue.request_writes; after every call: each released write '
         'starts at the number of bytes released so far and carries exactly the object bytes of that range, and the released length '
         'equals the longest prefix covered by everything delivered so far; at the end nothing is unreleased. (rand) random histories '
         'up to 64 bytes / 5 parts / 4 attempts. (mgr) histories pushed from one thread per part through the real '
@@ -135,11 +135,13 @@ def mech_of(hist, sym):
     return {'cls': 'DeferQueue', 'sym': sym, 'partial_overlap_in_history': partial}
 
 
-def exhaustive(n, max_parts, max_attempts, max_retried_parts=None):
+def exhaustive(n, max_parts, max_attempts, max_retried_parts=None, only_layout=None):
     obj = bytes(range(1, n + 1))
     viol = []
     stats = {'histories': 0, 'nontrivial': 0, 'steps': 0}
-    for layout in part_layouts(n, max_parts):
+    for li, layout in enumerate(part_layouts(n, max_parts)):
+        if only_layout is not None and li != only_layout:
+            continue
         per_part = []
         for (start, ln) in layout:
             per_part.append([deliveries_of(start, a) for a in attempts_for(ln, max_attempts)])
@@ -265,7 +267,10 @@ def gen_cases(tier, seed):
         for n in range(1, 6):
             cases.append({'type': 'exh', 'n': n, 'parts': 2, 'attempts': 3})
         cases.append({'type': 'exh', 'n': 6, 'parts': 2, 'attempts': 2})
-        cases.append({'type': 'exh', 'n': 6, 'parts': 3, 'attempts': 3, 'max_retried': 2})
+        for li in range(len(list(part_layouts(6, 3)))):
+            cases.append({'type': 'exh', 'n': 6, 'parts': 3, 'attempts': 3, 'max_retried': 1, 'layout': li})
+        for li in range(len(list(part_layouts(5, 3)))):
+            cases.append({'type': 'exh', 'n': 5, 'parts': 3, 'attempts': 3, 'max_retried': 2, 'layout': li})
     for i in range(16 if quick else 64):
         cases.append({'type': 'rand', 'seed': rng.randrange(1 << 30), 'count': 1500 if quick else 6000})
     for i in range(150 if quick else 1500):
@@ -283,8 +288,8 @@ def gen_cases(tier, seed):
 def run_case(case):
     t = case['type']
     if t == 'exh':
-        viol, stats = exhaustive(case['n'], case['parts'], case['attempts'], case.get('max_retried'))
-        return {'verdict': 'violated' if viol else 'held', 'key': f'exh-{case["n"]}-{case["parts"]}-{case["attempts"]}' if stats['nontrivial'] or case['n'] > 1 else None,
+        viol, stats = exhaustive(case['n'], case['parts'], case['attempts'], case.get('max_retried'), case.get('layout'))
+        return {'verdict': 'violated' if viol else 'held', 'key': f'exh-{case["n"]}-{case["parts"]}-{case["attempts"]}-{case.get("layout")}' if stats['nontrivial'] or case['n'] > 1 else None,
                 'violations': viol, 'stats': {'exh_histories': stats['histories'], 'exh_nontrivial': stats['nontrivial'], 'exh_steps': stats['steps']},
                 'summary': stats}
     if t == 'rand':
